@@ -173,19 +173,21 @@ def hDataThreadTerminatePid (_ : Env) (t : Tabs) (events : List Kevent) : HRes :
   .ok (some (mk "TRACE_DATA_THREAD_TERMINATE_PID" events s!"Thread terminated thread pid: {pid}, unique id {uid}"),
        { t with threadsPids := t.threadsPids.set e.tid pid })
 
-/-- The `for event in events: … break` loop of `handle_trace_string_global`. -/
-def globalLoop : List Kevent → (dbg sid : Nat) → (vstr : Bytes) → (evs : List Kevent) → Nat × Nat × Bytes × List Kevent
+/-- The `for event in events: … break` loop of `handle_trace_string_global`; records of another code
+    (`own` = the first record's event id) are skipped. -/
+def globalLoop (own : Nat) : List Kevent → (dbg sid : Nat) → (vstr : Bytes) → (evs : List Kevent) → Nat × Nat × Bytes × List Kevent
   | [], dbg, sid, vstr, evs => (dbg, sid, vstr, evs)
   | e :: rest, dbg, sid, vstr, evs =>
+    if e.eventid ≠ own then globalLoop own rest dbg sid vstr evs else
     let evs' := evs ++ [e]
     let (dbg', sid', vstr') :=
       if hasStart e then (arg e 0, arg e 1, vstr ++ e.data.drop 16) else (dbg, sid, vstr ++ e.data)
-    if hasEnd e then (dbg', sid', vstr', evs') else globalLoop rest dbg' sid' vstr' evs'
+    if hasEnd e then (dbg', sid', vstr', evs') else globalLoop own rest dbg' sid' vstr' evs'
 
 /-- `decode(errors='backslashreplace')` is modelled on valid text only (C07/C08 assume valid text). -/
 def hStringGlobal (env : Env) (t : Tabs) (events : List Kevent) : HRes :=
   if !hasStart (firstOf events) then .ok (none, t) else
-  let (_, sid, vstr, evs) := globalLoop events 0 0 [] []
+  let (_, sid, vstr, evs) := globalLoop (firstOf events).eventid events 0 0 [] []
   match env.dec (stripNul vstr) with
   | .error _ => .error .unmodelled  -- outside the model: invalid text is rendered with backslash escapes
   | .ok s =>
@@ -212,7 +214,9 @@ def hStringProcExit (env : Env) (t : Tabs) (events : List Kevent) : HRes := do
   let name ← env.dec (stripNul (firstOf events).data)
   pure (some (mk "TRACE_STRING_PROC_EXIT" events s!"Process exit name: {name}"), t)
 
-def joinData (events : List Kevent) : Bytes := (events.map (·.data)).flatten
+/-- `b''.join([e.data for e in events if e.eventid == events[0].eventid])` -/
+def joinData (events : List Kevent) : Bytes :=
+  ((events.filter fun e => e.eventid == (firstOf events).eventid).map (·.data)).flatten
 
 def hStringThreadname (key label : String) (env : Env) (t : Tabs) (events : List Kevent) : HRes :=
   if !hasStart (firstOf events) then .ok (none, t) else do
